@@ -599,6 +599,80 @@ def sample_vectors(case, r, n):
     return vs
 
 
+WIDE_WIDTHS = [63, 64, 65, 96, 128]        # 63/64 = controls, 65/96/128 = beyond one machine word
+
+
+def wide_cases(w):
+    """every block whose model is parametric in the DATA width, at data width `w` (all operands and results `w` bits)"""
+    top = 1 << (w - 1)
+    C = [mk('Repeat', rw=w), mk('BufEnable', aw=w, enw=1, rw=w), mk('Demux', aw=w, sw=2, n=4), mk('Demux', aw=w, sw=1, n=2),
+         mk('OneHotDemux', aw=w, ns=3, ows=[w] * 3), mk('OneHotMux', rw=w, ns=3, ws=[w] * 3), mk('Select', rw=w, ns=3, ws=[w] * 3),
+         mk('Select', rw=w, ns=1, ws=[w]), mk('SelectDefault', rw=w, ns=3, ws=[w] * 3, dw=w), mk('Mux', rw=w, sw=2, ws=[w] * 4),
+         mk('Mux', rw=w, sw=1, ws=[w] * 2), mk('Mux2', rw=w, sw=1, w0=w, w1=w), mk('Swap', raw=w, rbw=w, aw=w, bw=w, sw=1),
+         mk('Not', rw=w, aw=w), mk('Buf', rw=w, aw=w), mk('Constant', rw=w, v=M(w)), mk('Constant', rw=w, v=top),
+         mk('Range', rw=w, hi=w - 1, lo=0, aw=w), mk('Range', rw=3, hi=w - 1, lo=w - 3, aw=w), mk('Range', rw=w - 1, hi=w - 1, lo=1, aw=w),
+         mk('Bit', rw=1, k=w - 1, aw=w), mk('Bit', rw=1, k=w - 2, aw=w), mk('BitsLSBF', aw=w), mk('BitsMSBF', aw=w),
+         mk('ConcatenateMSBF', rw=w, ws=[w // 2, w - w // 2]), mk('ConcatenateLSBF', rw=w, ws=[w // 2, w - w // 2]),
+         mk('ConcatenateMSBF', rw=w + 3, ws=[3, w]), mk('ConcatenateLSBF', rw=w + 3, ws=[3, w]),
+         mk('ConcatenateMSBF', rw=w, ws=[1] * 3 + [w - 3]), mk('AndBits', aw=w, rw=1), mk('OrBits', aw=w, rw=1),
+         mk('Equal', aw=w, bw=w, rw=1), mk('AnyEqual', rw=1, ws=[w] * 3), mk('Comparator', w=w, gw=1, ew=1),
+         mk('ComparatorSignedUnsigned', w=w), mk('PriorityEncoder', ws=[w] * 3, rw=w, inc=True),
+         mk('PriorityEncoder', ws=[w] * 3, rw=w, inc=False), mk('PriorityEncoder', ws=[1] * w, rw=1, inc=True),
+         mk('Minterm', rw=1, n=w, v=top | 1), mk('SumOfMinterms', aw=w, rw=1, ms=[top, M(w), 1, top | 5])]
+    for k in ('And', 'Or', 'Xor', 'Nor'):
+        C += [mk(k, rw=w, ws=[w] * 3), mk(k, rw=w, ws=[w] * 2)]
+    for k in ('And2', 'Or2', 'Nand2', 'Nor2', 'Xor2'):
+        C.append(mk(k, rw=w, aw=w, bw=w))
+    for k in ('Max2', 'Min2', 'SignedMax2', 'SignedMin2'):
+        C.append(mk(k, w=w, rw=w))
+    for v in (top, M(w), top | 1, 1):
+        C += [mk('EqualConstant', aw=w, rw=1, v=v), mk('NotEqualConstant', aw=w, rw=1, v=v)]
+    return C
+
+
+def wide_vectors(case, r, n_extra):
+    """boundary vectors that exercise the TOP bits of every wide input, with every 1-bit input (enable / select) active, one-hot
+    at every position, and off; equal operands and operands differing in the top / bottom bit only; + seeded values"""
+    inw = case.inw
+    wide = [j for j, w in enumerate(inw) if w > 8]
+    narrow = [j for j, w in enumerate(inw) if w <= 8]
+
+    def pats(w):
+        top = 1 << (w - 1)
+        return [M(w), top, top | 1, M(w) ^ top, top | (top >> 1), (M(w) // 3) | top, M(w) >> 1, 1 << 64 if w > 64 else top, 0, 1]
+    sel_pats = [[M(inw[j]) for j in narrow], [0 for j in narrow]]
+    for hot in range(len(narrow)):
+        sel_pats.append([int(q == hot) if inw[j] == 1 else (hot & M(inw[j])) for q, j in enumerate(narrow)])
+    vs = []
+    for sp in sel_pats:
+        for t in range(10):
+            X = [0] * len(inw)
+            for q, j in enumerate(narrow):
+                X[j] = sp[q]
+            for q, j in enumerate(wide):
+                pp = pats(inw[j])
+                X[j] = pp[(t + 3 * q) % len(pp)]
+            vs.append(X)
+        if len(wide) >= 2:                                 # equal operands / neighbours in the top and bottom bit
+            for base in (M(inw[wide[0]]), 1 << (inw[wide[0]] - 1), r.bits(inw[wide[0]])):
+                for d in (0, 1, 1 << (inw[wide[0]] - 1)):
+                    X = [0] * len(inw)
+                    for q, j in enumerate(narrow):
+                        X[j] = sp[q]
+                    for q, j in enumerate(wide):
+                        X[j] = (base ^ (d if q == len(wide) - 1 else 0)) & M(inw[j])
+                    vs.append(X)
+    if len(narrow) > 12:                                   # many 1-bit inputs (Minterm, 1-bit PriorityEncoder): patterns over the list
+        n = len(inw)
+        vs = [[1] * n, [0] * n, [0] * (n - 1) + [1], [1] + [0] * (n - 1), [1] + [0] * (n - 2) + [1], [int(q % 2 == 0) for q in range(n)]]
+        if case.kind == 'Minterm':
+            vs.append([(case.P[1] >> q) & 1 for q in range(n)])
+            vs.append([((case.P[1] >> q) & 1) ^ int(q == n - 1) for q in range(n)])
+    for _ in range(n_extra):
+        vs.append([r.bits(w) for w in inw])
+    return vs
+
+
 def out_of_range_alt(case, X):
     """constructor calls with a constant outside [0, 2^width) (proposed finding C08-equalconstant-out-of-range): the
     literal reading of the documentation ("active when a == v", i.e. never for such v).  None for every other case.
@@ -774,6 +848,14 @@ def main(res, tier, rng, replay):
                      (mk('Equal', aw=4, bw=4, rw=2), [[5, 5], [5, 4]]),
                      (mk('AnyEqual', rw=1, ws=[4, 4, 4]), [[9, 3, 9], [1, 2, 3], [0, 0, 0]])):
         b.add(rc, 'x', vecs)
+    # wide data paths: every width-parametric block at 63/64 (controls) and 65/96/128 bits with vectors that set the top bits.
+    # quick: 65 + one seeded width of {96, 128} + one seeded control; thorough: all five
+    wr = r.fork('wide')
+    widths = WIDE_WIDTHS if tier != 'quick' else [65, wr.choice([96, 128]), wr.choice([63, 64])]
+    for w in widths:
+        for wi, wc in enumerate(wide_cases(w)):
+            b.add(wc, 'x', wide_vectors(wc, wr.fork((w, wi)), 4 if tier == 'quick' else 40))
+            res.hist('wide_width_class', w)
     n_rand = 320 if tier == "quick" else 3000
     n_vec = 40 if tier == 'quick' else 120
     for i in range(n_rand):
